@@ -9,14 +9,17 @@ from ..val import veq, clone, walk, get_path
 ID = 'C10'
 NEED_BINS = True
 SIZES = {'quick': 20000, 'thorough': 1500000}
-REQUIRED_EVENTS = ['inline_agreed', 'required_failures', 'target_unchanged_checked']
+REQUIRED_EVENTS = ['inline_agreed', 'required_failures', 'target_unchanged_checked', 'multi_reference_documents']
 RULE = ('from a random $-free tree (1-3 document streams) choose a target path and a non-overlapping host position; plant one reference in '
         'map / list / string form, $merge or $replace, addressed by dotted string, list path (keys containing dots), cross-document '
         '{$match,$path} or [pattern, path...]; optionally a second reference inside the target (chain) and $output:false around the target. '
         'Metamorphic oracle, both sides run by the real evaluator: eval(D) == eval(D\') where D\' has the host expanded by hand ($replace: the '
         'raw subtree; $merge: documented merge of referenced onto local, a model Reject => D must fail). Also: the target subtree in eval(D) '
         'equals the one in eval(D without host); dangling paths and patterns matching 0 or >=2 documents must fail. Non-trivial = the '
-        'reference resolved (or was required to fail); distinct = distinct (documents, host).')
+        'reference resolved (or was required to fail); distinct = distinct (documents, host). One case in ten holds several references in one '
+        'evaluated document with the expected document expanded by the generator: two cross-document patterns that differ only in the type '
+        'of the matched value (1 / "1", true / "true") aimed at twin documents; a host merging T whose local content references T again; '
+        'a host merging U whose local content references T whose content references U.')
 ASSUMPTIONS = ['merge model for the $merge expansion', 'overlapping host/target not generated (C08/C09 territory)']
 
 KEYS = ['a', 'b', 'c', 'd', 'x.y', 'a.b']
@@ -67,7 +70,110 @@ def make_ref(rng, tpath, docname, form_cross, labels, docid=None):
     return path_text(tpath)
 
 
+TWINS = [(1, '1'), (True, 'true'), (1.5, '1.5'), (0, '0'), (False, 'false'), (2, 2.5), ('a b', 'a  b')]
+
+
+def plain(rng, depth=2):
+    return gen.tree(rng, depth, 3, nulls=False, root='map', keys=['a', 'b', 'c', 'd'])
+
+
+def gen_multi(rng):
+    """Several references in one evaluated document, expanded by hand by the generator (expected document in 'expanded')."""
+    kind = rng.choice(['twins', 'twins', 'nested-same-target', 'nested-same-target', 'nested-via-template'])
+    labels = {'multi:' + kind}
+    if kind == 'twins':
+        # two documents whose distinguishing key differs only in type (or prints alike), both referenced from one host document
+        x, y = rng.choice(TWINS)
+        if rng.random() < 0.5:
+            x, y = y, x
+        key = rng.choice(['id', 'name', 'k'])
+        da = {key: x, 't': plain(rng), 'who': 'first'}
+        db = {key: y, 't': plain(rng), 'who': 'second'}
+        forms = []
+        host = {'hostdoc': True}
+        exp = {'hostdoc': True}
+        order = [('h1', da, x), ('h2', db, y)]
+        if rng.random() < 0.5:
+            order.reverse()
+        if rng.random() < 0.4:
+            order.append(('h3', order[0][1], order[0][2]))
+        for hk, dd, idv in order:
+            f = rng.choice(['cross-list', 'cross-match', 'cross-list-merge-local', 'str-cross'])
+            pat = {key: idv}
+            if f == 'cross-list':
+                host[hk] = {'$replace': [pat, 't']}
+                exp[hk] = clone(dd['t'])
+            elif f == 'cross-match':
+                host[hk] = {'$merge': {'$match': pat, '$path': 't'}}
+                exp[hk] = clone(dd['t'])
+            elif f == 'str-cross' and isinstance(idv, (int, float)) and not isinstance(idv, bool):
+                host[hk] = '$merge:[{%s: %s}, who]' % (key, json.dumps(idv))
+                exp[hk] = dd['who']
+            else:
+                host[hk] = {'$merge': [pat, 't'], 'zlocal': 1}
+                e = clone(dd['t'])
+                e['zlocal'] = 1
+                exp[hk] = e
+            forms.append(f)
+        docs = [da, db, host]
+        expanded = [clone(da), clone(db), exp]
+        pos = rng.randrange(3)
+        docs.insert(pos, docs.pop())
+        expanded.insert(pos, expanded.pop())
+        labels.add('twin:%s/%s' % (type(x).__name__, type(y).__name__))
+        return {'docs': docs, 'expanded': expanded, 'multi': kind, 'labels': sorted(labels)}
+    t = plain(rng)
+    t.pop('inner', None)
+    notes = model.Notes()
+    if kind == 'nested-same-target':
+        # a host that merges T and whose local content references T again (T contains neither host)
+        iloc = {'mem': rng.randint(1, 9)}
+        inner_form = rng.choice(['map-merge', 'map-replace', 'str-merge', 'list-replace'])
+        if inner_form == 'map-merge':
+            inner, iexp = dict(iloc, **{'$merge': 't'}), model.merge(iloc, clone(t), notes)
+        elif inner_form == 'map-replace':
+            inner, iexp = {'$replace': 't'}, clone(t)
+        elif inner_form == 'str-merge':
+            inner, iexp = '$merge:t', clone(t)
+        else:
+            inner, iexp = [{'$replace': 't'}], clone(t)
+        depth = rng.choice([0, 0, 1])
+        loc_i, loc_e = {'inner': inner}, {'inner': iexp}
+        if depth:
+            loc_i, loc_e = {'wrap': loc_i}, {'wrap': loc_e}
+        host = dict(loc_i, **{'$merge': 't'})
+        try:
+            hexp = model.merge(loc_e, clone(t), notes)
+        except model.Reject:
+            return None
+        if notes.unspec or notes.either or 'wrap' in t:
+            return None
+        d = {'t': t, 'svc': host}
+        e = {'t': clone(t), 'svc': hexp}
+        labels.add('inner:' + inner_form)
+        return {'docs': [d], 'expanded': [e], 'multi': kind, 'labels': sorted(labels)}
+    # outer host merges U; its local content references T; T's content references U
+    u = plain(rng, 1)
+    u.pop('loc', None)
+    tt = {'fromu': {'$merge': 'u'}, 'own': rng.randint(1, 9)}
+    texp = {'fromu': clone(u), 'own': tt['own']}
+    host = {'$merge': 'u', 'loc': rng.choice([{'$merge': 't'}, {'$replace': 't'}, '$merge:t'])}
+    try:
+        hexp = model.merge({'loc': clone(texp)}, clone(u), notes)
+    except model.Reject:
+        return None
+    if notes.unspec or notes.either:
+        return None
+    d = {'u': u, 't': tt, 'outer': host}
+    e = {'u': clone(u), 't': clone(texp), 'outer': hexp}
+    return {'docs': [d], 'expanded': [e], 'multi': kind, 'labels': sorted(labels)}
+
+
 def gen_case(rng, i, tier):
+    if rng.random() < 0.1:
+        c = gen_multi(rng)
+        if c is not None:
+            return c
     labels = set()
     ndocs = rng.choice([1, 1, 2, 3])
     docs = []
@@ -203,6 +309,8 @@ def fixed_cases(tier):
 
 def shrink(case):
     from ..shrink import shrink_tree
+    if case.get('multi'):
+        return
     docs, plan = case['docs'], case['plan']
     hd, td = plan['host_doc'], plan['target_doc']
     for di, d in enumerate(docs):
@@ -231,9 +339,41 @@ def evaluate(ctx, res, docs, parser=0):
     return ops
 
 
+def check_multi(ctx, res, case):
+    docs, expanded = case['docs'], case['expanded']
+    ops = evaluate(ctx, res, docs, 0) + evaluate(ctx, res, expanded, 1)
+    resp = ctx.call(ops, res)
+    if resp is None:
+        return res.violate('crash', 'worker died', docs=docs)
+    rs = resp['results']
+    for r in rs:
+        if r.get('panic'):
+            return res.violate('crash', 'panic: ' + r['panic'][:300], docs=docs)
+    n = len(docs) + 2
+    rd, rp = rs[n - 1], rs[2 * n - 1]
+    res.nontrivial = True
+    if rp['err'] is not None:
+        return res.skip('hand-expanded document does not evaluate: %s' % rp['err'])
+    if rd['err'] is not None:
+        return res.violate('inline', 'document with several references fails (%s), hand-expanded document succeeds' % rd['err'], docs=docs, expanded=expanded)
+    if out_bytes(rd) != out_bytes(rp):
+        return res.violate('inline', 'evaluation with several references differs from the hand-expanded document', docs=docs, expanded=expanded,
+                           with_ref=out_bytes(rd).decode(), inline=out_bytes(rp).decode())
+    if not veq(rs[n - 2].get('values'), rs[2 * n - 2].get('values')):
+        return res.violate('inline', 'evaluated values (types) differ between references and hand-expanded document', docs=docs, expanded=expanded)
+    res.ev('inline_agreed')
+    res.ev('multi_reference_documents')
+    res.labels.add('outcome:inline-equal')
+    if case.get('i', 0) % 12 == 0:
+        file_crosscheck(ctx, res, docs, True, out_bytes(rd), {'docs': docs}, random.Random(case.get('i', 0)))
+    return res
+
+
 def check_case(ctx, case):
     res = Result()
     res.labels.update(case.get('labels', []))
+    if case.get('multi'):
+        return check_multi(ctx, res, case)
     docs, plan = case['docs'], case['plan']
     hd, td = plan['host_doc'], plan['target_doc']
     form, broken = plan['form'], plan['broken']
